@@ -377,6 +377,20 @@ void explore08(Options const& o, std::vector<Shim*> const& shims, std::vector<Sh
         if( g != base[ib] ) { i64 A = H[ia], B = H[ib], e = base[ib]; lv.hit(c_h, (static_cast<u64>(ci) << 56) | (static_cast<u64>(op) << 40) | (ia * H.size() + ib), [=]{ Example ex; ex.entry = "unary entry point #" + std::to_string(op) + ": f(A); f(B)"; ex.cfg = s->name;
             ex.inputs = {{"A", to_s(A)}, {"B", to_s(B)}}; ex.expected = to_s(e) + " (f(B) in the ascending sweep)"; ex.got = to_s(g); ex.rcase = "hist"; ex.rin = { to_s(op), to_s(A), to_s(B), "0" }; return ex; }); }
         }
+      // aliased second arguments (equal to the first modulo 2^k, or above bit k): a memo keyed on part of the argument
+      std::vector<i64> const& SD = history_seeds();
+      for( size_t ia = 0; ia < SD.size(); ++ia )
+        {
+        std::vector<i64> Bv = alias_args(SD[ia], FX_LOWEST, FX_MAX);
+        for( size_t ib = 0; ib < Bv.size(); ++ib )
+          {
+          i64 A = SD[ia], B = Bv[ib], g = 0, e = 0;
+          int sg = guarded([&]{ s->fm_un(op, A); g = s->fm_un(op, B); s->fm_un(op, ~B == FX_NAN ? 0 : ~B); e = s->fm_un(op, B); }); if( sg ) { g = static_cast<i64>(TRAPPED); e = g; }
+          if( g != e ) lv.hit(c_h, (static_cast<u64>(ci) << 56) | (static_cast<u64>(op) << 40) | (1ull << 39) | (ia << 12) | ib, [=]{ Example ex; ex.entry = "unary entry point #" + std::to_string(op) + ": f(A); f(B)"; ex.cfg = s->name; ex.shape = "B aliases A (equal modulo 2^k or above bit k)";
+              ex.inputs = {{"A", to_s(A)}, {"B", to_s(B)}}; ex.expected = to_s(e) + " (f(B) right after f(~B))"; ex.got = to_s(g); ex.rcase = "hist"; ex.rin = { to_s(op), to_s(A), to_s(B), "0" }; return ex; });
+          }
+        rec.add_states(Bv.size(), 4 * Bv.size(), Bv.size());
+        }
       });
     n += static_cast<u64>(U_COUNT) * H.size() * H.size();
     }
@@ -424,7 +438,7 @@ void replay08(Options const& o, Shim* s, Recorder& rec)
       return; }
   if( o.rcase == "hist" )
     { int op = static_cast<int>(parse_i64(o.rin.at(0))); i64 A = parse_i64(o.rin.at(1)), B = parse_i64(o.rin.at(2));
-      i64 fresh = s->fm_un(op, B); s->fm_un(op, B); i64 again = s->fm_un(op, B); s->fm_un(op, A); i64 g = s->fm_un(op, B);
+      s->fm_un(op, ~B == FX_NAN ? 0 : ~B); i64 fresh = s->fm_un(op, B); s->fm_un(op, B); i64 again = s->fm_un(op, B); s->fm_un(op, A); i64 g = s->fm_un(op, B);
       if( g != fresh || again != fresh ) rec.viol(rec.cls("C08.result_depends_on_previous_call"), 0, [&]{ Example ex; ex.entry = "f(A); f(B)"; ex.cfg = o.rcfg; ex.expected = to_s(fresh); ex.got = to_s(g); ex.rcase = o.rcase; ex.rin = o.rin; return ex; });
       return; }
   if( o.rcase == "mask" )
